@@ -1,5 +1,12 @@
-(* C06 -- A ClusterCIDR is released only when no node depends on it, then never used. *)
-From NIPAM Require Import Sys Alloc_proofs Sys_proofs.
+(* C06 -- A ClusterCIDR is released only when no node depends on it, then never used.
+   The controller's notion of "depends" is the association of the node's name with the entry.  Proved:
+   the finalizer-removing write is issued only when the entry has no associated node; every write to a
+   ClusterCIDR changes nothing but the controller's own finalizer; an association is recorded with every
+   successful (or unknowable) write of pod CIDRs taken from the entry and is preserved, together with the
+   reserved keys, by every work item other than the release of that very node (C01, Resv_proofs.v).
+   Not proved (monitored): that releases of a node happen only when the node is gone or being deleted
+   -- the world-level glue, same residue as C01. *)
+From NIPAM Require Import Resv_proofs Sys Alloc_proofs Sys_proofs.
 Open Scope N_scope.
 
 (* the finalizer-removing write is issued only when the entry filed for that ClusterCIDR has no
@@ -28,3 +35,17 @@ Theorem C06_delete_changes_only_own_finalizer :
                        | _ => False end.
 Proof. exact delete_writes_only_own_finalizer. Qed.
 Print Assumptions C06_delete_changes_only_own_finalizer.
+
+(* contrapositive, in the terms of C01: while some node is associated with the entry, a deletion request
+   removes no finalizer (and C01_reservations_survive_clustercidr_items keeps the entry and its keys) *)
+Theorem C06_no_release_while_a_node_is_associated :
+  forall m o out m' r fx k l i c name,
+  reconcile_delete m o out = (m', r, fx) -> o_selkey o = Some k -> find_key k m = Some l ->
+  find_name (o_name o) l 0 = Some (i, c) -> has_str name (cc_assoc c) = true ->
+  forall o' uo, ~ In (FxUpdateCC o' uo) fx.
+Proof.
+  intros m o out m' r fx k l i c name H Hk Hf Hn Ha o' uo Hin.
+  pose proof (finalizer_removed_only_when_unassociated _ _ _ _ _ _ _ _ H Hin k l i c Hk Hf Hn) as He.
+  rewrite He in Ha. discriminate Ha.
+Qed.
+Print Assumptions C06_no_release_while_a_node_is_associated.
